@@ -44,6 +44,11 @@
    Initial projection: the built-in Owner role + Owner policy provisioned by OpenService,
    assigned to the root user (subject "root"); Owner policy = all actions on (among
    others) the types T1, T2, type-level.
+   Decoy (harness only, "not a grant"): every history also has a NON-role resource (a group
+   node) that is parent-of every registered subject and the root user and parent-of a
+   decoy policy granting every action on every type; that policy is attached to no role,
+   so it is in no PropPol/CodePol set and the expectations below are unchanged. It exists
+   to expose a walk that takes any parent of the subject for a role.
    Pinned beyond the property (compared as DRIFT, never as a verdict): ok/error result
    of each writer call (a different result ends the history: the model state is no longer
    a reference); rrow/rnode/prow/pnode/att/asg after each step (a difference is recorded
